@@ -456,7 +456,7 @@ pub fn run(args: &Args) -> i32 {
          for all version pairs (b,e) the id sets of get_inserted_rows / get_updated_rows (dataset checked out at e) with \
          the model's. Non-trivial = >=4 versions, >=1 update-like op, >=3 pairs with a non-empty delta, >=2 fragments; \
          distinct by (storage version, file size, applied op kinds).",
-        (70, 900),
+        (85, 900),
     )
     .with_min_nontrivial(args.tier.pick(15, 200));
     let ops = Histo::default();
@@ -467,7 +467,7 @@ pub fn run(args: &Args) -> i32 {
         diag: &diag,
     };
     let selftest = selftest_requested(args);
-    let max_cases = if selftest { 40 } else { args.tier.pick(1_000, 30_000) };
+    let max_cases = if selftest { 40 } else { args.tier.pick(150, 30_000) };
     let st = std::sync::Mutex::new((0u64, 0u64));
     if let Some(i) = args.extra.get("case").and_then(|s| s.parse::<u64>().ok()) {
         let rt = tokio::runtime::Builder::new_current_thread().enable_all().build().unwrap();
